@@ -133,11 +133,17 @@ def dropRxOf (cs : List Chan) : Option Nat → List Chan
   | some c => modifyChan cs c fun ch => { ch with rxAlive := false }
   | none => cs
 
-/-- the driver ends (any cause): it drops the op queue with its contents, both maps and the transport -/
+/-- a mailbox whose sender is dropped -/
+def dropIf (m : Mail) : Mail := if m = .empty then .dropped else m
+
+/-- the driver ends (any cause): it drops the op queue with its contents (the requests in it are
+gone for good), both maps and the transport; every reply sender it held is dropped -/
 def endDriver (s : St) (how : Drv) : St :=
-  let ops1 := s.opQ.foldl dropSender s.ops
-  let ops2 := s.resultmap.foldl (fun o p => dropSender o p.2) ops1
-  { s with ops := ops2, opQ := [], resultmap := [], searchmap := [], drv := how }
+  let ops' := s.ops.mapIdx fun j o =>
+    if s.opQ.contains j then { o with phase := .taken, mail := dropIf o.mail }
+    else if s.resultmap.any (fun p => p.2 == j) then { o with mail := dropIf o.mail }
+    else o
+  { s with ops := ops', opQ := [], resultmap := [], searchmap := [], drv := how }
 
 /-- does channel `c` still have a sender? (a clone in `searchmap`, or the original travelling in the op queue) -/
 def chanOpen (s : St) (c : Nat) : Bool :=
